@@ -1486,6 +1486,10 @@ class Interp:
         if ft == ("global", "builtins.len") and len(args) == 1 \
                 and args[0][0] in ("tuple", "list", "dict"):
             return const(len(args[0][1]))
+        if ft == ("global", "builtins.len") and len(args) == 1 \
+                and is_const(args[0]) and isinstance(
+                    args[0][1], (str, tuple, frozenset, bytes)):
+            return const(len(args[0][1]))
         if ft == ("global", "builtins.str") and len(args) == 1 \
                 and is_const(args[0]) and isinstance(args[0][1], str):
             return args[0]
@@ -1763,7 +1767,15 @@ class Interp:
         if isinstance(st, ast.With):
             opened = []
             for it in st.items:
-                v = self.eval(it.context_expr, env)
+                ce = it.context_expr
+                if isinstance(ce, ast.Call) and len(ce.args) == 1 \
+                        and not ce.keywords and self.m.resolve_dotted(
+                            self.fstack[-1].module, dotted(ce.func) or "?") \
+                        == "contextlib.closing":
+                    # with closing(x): is "close x on the way out"
+                    v = self.eval(ce.args[0], env)
+                else:
+                    v = self.eval(ce, env)
                 opened.append(v)
                 if it.optional_vars is not None:
                     self.assign(it.optional_vars, v, env, st)
